@@ -301,7 +301,7 @@ def run(rep: Report, prog: Program, tier: str) -> None:
         return out
     scen = [("growing queueing delay (over-use)", 130)]
     if tier == "thorough":
-        scen = [("growing queueing delay (over-use)", 400), ("steady, two SSRCs, some empty packets", 700), ("bursts", 500)]
+        scen = [("growing queueing delay (over-use)", 300), ("steady, two SSRCs, some empty packets", 420), ("bursts", 300)]
     for kind, n in scen:
         results = {}
         problem = None
